@@ -235,6 +235,7 @@ func suiteRelaySoak(e *vh.Env) {
 	}
 	e.Sample(map[string]interface{}{"requests": total, "concurrency": par})
 	relayAbandoned(e, total)
+	relayBurst(e, total+50)
 }
 
 // suiteHandoff (C04): concurrent pollers against the real proxy: every request ID must
